@@ -65,6 +65,11 @@ class Interp:
             if node.id in env:
                 return env[node.id]
             return ("opaque", node.id)
+        if isinstance(node, ast.Attribute) and isinstance(node.value, ast.Name) and node.value.id == "self" and self.owner is not None:
+            v = inspect.getattr_static(self.owner, node.attr, None)    # class-level integer constants
+            if isinstance(v, int) and not isinstance(v, bool):
+                return v
+            return ("opaque", "self." + node.attr)
         if isinstance(node, ast.BinOp):
             a, b = self.expr(node.left, env), self.expr(node.right, env)
             if isinstance(a, tuple) or isinstance(b, tuple):
